@@ -13,6 +13,9 @@
 (*   pq     queued, not yet applied subscriptions (<<n, k>>, in call order)       *)
 (*   pun    <<n, k>> -> queued, not yet applied unsubscriptions                   *)
 (*   ov     notifiers with an unsubscription applied before its subscription      *)
+(*   idle   the node had nothing left to process after the previous event (the    *)
+(*          driver logs the number of queued items it OBSERVED, `pend`): a fired   *)
+(*          notifier has then left, however many unsubscriptions the node queued  *)
 (* Mechanism (conformance notes only): subs = the lists PubSub.tla predicts.      *)
 EXTENDS Integers, Sequences, FiniteSets, TraceKit
 
@@ -21,11 +24,11 @@ Keys == {0, 1, 2}
 TwoQueues == TRUE
 SkipAfterDelete == TRUE
 
-VARIABLES l, reg, fired, ncallk, pq, pun, ov, subs, bad, notes,
+VARIABLES l, reg, fired, ncallk, pq, pun, ov, subs, bad, notes, idle,
           nreg,     \* <<n, k>> -> number of subscriptions that have taken effect
           flight    \* the publication held inside a Notify (NoFlight: none): p, m, deliveries so far, and
                     \* who was registered / had left when it began
-tvars == <<l, reg, fired, ncallk, pq, pun, ov, subs, bad, notes, nreg, flight>>
+tvars == <<l, reg, fired, ncallk, pq, pun, ov, subs, bad, notes, idle, nreg, flight>>
 
 SplitPub == TRUE
 P == INSTANCE PubSub WITH qs <- <<>>, qu <- <<>>, calls <- <<>>, clock <- 0, out <- <<>>,
@@ -65,7 +68,7 @@ IsUnsubAp(e) == HasAp(e) /\ ApKind(e) # "sub"
 \*         subscribe anew while it was in flight
 \* For a publication that is one event (op "pub") the beginning and the end coincide.
 NoFlight == [p |-> -1]
-QuietNow == {n \in Notifiers : Quiet(fired, pun, n)}
+QuietNow == {n \in Notifiers : Quiet(fired, pun, n)} \cup (IF idle THEN fired ELSE {})
 RegNow == {r \in reg : r[1] \notin fired}
 CountD(D, x) == Cardinality({i \in DOMAIN D : D[i][1] = x[1] /\ D[i][2] = x[2]})
 
@@ -104,7 +107,7 @@ Zero == [x \in NK |-> 0]
 
 TInit == /\ l = 1 /\ reg = {} /\ fired = {} /\ ncallk = Zero
          /\ pq = <<>> /\ pun = Zero /\ ov = {} /\ subs = [k \in Keys |-> <<>>]
-         /\ bad = <<>> /\ notes = <<>>
+         /\ bad = <<>> /\ notes = <<>> /\ idle = TRUE
          /\ nreg = Zero /\ flight = NoFlight
 
 TStep ==
@@ -113,9 +116,10 @@ TStep ==
      IF e.op = "reset"
      THEN /\ l' = l + 1 /\ reg' = {} /\ fired' = {} /\ ncallk' = Zero
           /\ pq' = <<>> /\ pun' = Zero /\ ov' = {} /\ subs' = [k \in Keys |-> <<>>]
-          /\ bad' = bad /\ notes' = notes /\ nreg' = Zero /\ flight' = NoFlight
+          /\ bad' = bad /\ notes' = notes /\ nreg' = Zero /\ flight' = NoFlight /\ idle' = TRUE
      ELSE
        /\ l' = l + 1
+       /\ idle' = ("pend" \in DOMAIN e /\ e.pend = 0)
        /\ fired' = EnqFired(e)
        /\ ncallk' = EnqNcallk(e)
        /\ LET pq1 == EnqPq(e)
